@@ -520,6 +520,15 @@ func checkCanceledVerdict(w *World, r *Report, ro *Roles) {
 							failed = true
 						}
 					}
+					// an acknowledged cancel found the job (cancel.table: an unknown id is an error): a later
+					// "not in the id index" branch for the same id is not taken
+					if a := splitArgs(e.Val); len(a) > 0 {
+						for _, l := range p.Lits {
+							if l.Atom.Op == "true" && l.Atom.L == "has(recv.jobsByID["+a[len(a)-1]+"])" && !l.Val {
+								failed = true
+							}
+						}
+					}
 					if failed || p.End != "return" {
 						continue
 					}
